@@ -369,6 +369,9 @@ def build(spec):
     if "prices" in spec:
         for k, v in spec["prices"].items():
             data[k] = np.array(v, dtype=float)
+    if spec.get("price_scale"):
+        # price level (a full-sample statistic of the table moves with every future quote)
+        data = data * float(spec["price_scale"])
     if spec.get("nan_rows"):
         # dates on which nothing at all is quoted (legal while the book is flat)
         for i in spec["nan_rows"]:
